@@ -27,7 +27,11 @@ func TestVerifReplay(t *testing.T) {
 	}
 	defer func() {
 		if r := recover(); r != nil {
-			fmt.Printf("VERIF-PANIC: %v\n", r)
+			if s, ok := r.(string); ok && len(s) > 21 && s[:21] == "verif-replay-mismatch" {
+				fmt.Printf("VERIF-REPLAY-MISMATCH: %v\n", r)
+			} else {
+				fmt.Printf("VERIF-PANIC: %v\n", r)
+			}
 			t.Fail()
 		}
 	}()
@@ -113,7 +117,7 @@ func RunReplay(dir string) (reproduced bool, output string) {
 	}
 	var ce Counterexample
 	json.Unmarshal(b, &ce)
-	if strings.Contains(output, "VERIF-ASSUME-FALSE") {
+	if strings.Contains(output, "VERIF-ASSUME-FALSE") || strings.Contains(output, "VERIF-REPLAY-MISMATCH") {
 		return false, output
 	}
 	if ce.Kind == "panic" {
